@@ -57,7 +57,15 @@ impl Known {
     }
 
     pub fn is_open(&self, prop: &str, sig: &str) -> bool {
-        self.open.iter().any(|e| e.prop == prop && e.sig == sig)
+        if self.open.iter().any(|e| e.prop == prop && e.sig == sig) {
+            return true;
+        }
+        // C20 re-uses the mapping plans of C01 / C02 / C03: a functional defect listed for its own property (the plan
+        // does not compile at all, with or without std) is the same finding there, not a no_std violation
+        if let Some(inner) = sig.strip_prefix("functional:") {
+            return self.open.iter().any(|e| e.sig == inner && matches!(e.prop.as_str(), "C01" | "C02" | "C03"));
+        }
+        false
     }
 
     pub fn for_prop(&self, prop: &str) -> Vec<&KnownEntry> {
